@@ -227,6 +227,7 @@ def run(ctx):
     for s in pmap(one, cases, workers=8)[:8]:
         ctx.sample(s)
     several_faulty_parts(ctx, home, quick)
+    override_sets(ctx, home, quick)
     race_detector_pass(ctx, home, quick)
     history_independence(ctx, home, quick)
     over_previous_output(ctx, home, quick)
@@ -299,6 +300,58 @@ def several_faulty_parts(ctx, home, quick):
         shutil.rmtree(base, ignore_errors=True)
 
     pmap(one, layouts, workers=4)
+
+
+def override_sets(ctx, home, quick):
+    """the command line is part of what the output depends on: sets of `-c key=value` overrides of which several are wrong in different ways (unknown keys, a
+    value of the wrong type, an empty output directory, an invalid namespace) next to valid ones. Which one is reported - hence the diagnostic text - and
+    whether anything is written must not vary between runs; sets in which every override is valid must produce the same tree every time."""
+    runs = 24 if quick else 100
+    good = "Rec: !record\n  fields:\n    a: int\nP: !protocol\n  sequence:\n    r: Rec\n"
+    manifest = ("namespace: Ov\ncpp:\n  sourcesOutputDir: ../out/cpp\n  generateHDF5: false\n  generateCMakeLists: false\npython:\n  outputDir: ../out/python\n"
+                "json:\n  outputDir: ../out/json\nmatlab:\n  outputDir: ../out/matlab\n")
+    unknown = ["nosuch.alpha=1", "nosuch.beta=2", "cpp.nosuch=3", "python.outputdir=x", "Json.outputDir=y", "zz=1", "matlab.nosuch.deep=1", "aa.bb=2"]
+    wrong = ["python.outputDir=", "json.outputDir=", "namespace=9x", "namespace=", "cpp.generateHDF5=maybe", "cpp.sourcesOutputDir="]
+    valid = ["python.outputDir=../out/py2", "json.outputDir=../out/json2", "cpp.generateNDJson=false", "matlab.outputDir=../out/m2", "namespace=Other", "python.internalSymlinkStaticFiles=false"]
+    sets = [("two-unknown", unknown[:2]), ("three-unknown", unknown[2:5]), ("eight-unknown", unknown), ("unknown-among-valid", valid[:3] + unknown[5:7] + valid[3:5]),
+            ("two-wrong-values", wrong[:2]), ("wrong-values-and-unknown", [wrong[2], unknown[0], wrong[4], unknown[3]]), ("all-wrong", wrong + unknown[:3]),
+            ("all-valid", valid), ("valid-pair", valid[:2])]
+    if quick:
+        sets = [x for x in sets if x[0] in ("two-unknown", "eight-unknown", "unknown-among-valid", "wrong-values-and-unknown", "all-valid")]
+
+    def one(item):
+        name, overrides = item
+        base = os.path.join(ctx.workdir, "cases", "overrides_" + name)
+        shutil.rmtree(base, ignore_errors=True)
+        common.write_tree(base, {"pkg/_package.yml": manifest, "pkg/m.yml": good})
+        pkgdir = os.path.join(base, "pkg")
+        extra = []
+        for o in overrides:
+            extra += ["-c", o]
+        obs = []
+        for n in range(runs):
+            shutil.rmtree(os.path.join(base, "out"), ignore_errors=True)
+            p = cli.run_cli("validate" if n % 2 and not name.startswith("all-valid") else "generate", pkgdir, home, extra)
+            ctx.ev()
+            if p.timed_out:
+                raise Inconclusive("watchdog")
+            tree = {k: v[3] for k, v in fsmon.snapshot(os.path.join(base, "out")).items() if v[0] == "file"} if os.path.isdir(os.path.join(base, "out")) else {}
+            obs.append((p.rc, p.stdout if n % 2 == 0 or name.startswith("all-valid") else "", p.stderr, tree if n % 2 == 0 or name.startswith("all-valid") else None))
+        ctx.case(("override-sets", name))
+        ctx.count("kind.override-sets")
+        ctx.count("override-sets.runs", runs)
+        ctx.count("override-sets.rc%d" % obs[0][0])
+        first_gen = obs[0]
+        for n, o in enumerate(obs[1:], 1):
+            ref = first_gen if n % 2 == 0 or name.startswith("all-valid") else obs[1]
+            if o != ref:
+                key = ["rc", "stdout", "stderr", "output-tree"][[a != b for a, b in zip(o, ref)].index(True)]
+                ctx.violation("nondeterministic:override-sets:%s" % key, "overrides %s: run %d differs from an earlier identical run in %s: %s" % (
+                    " ".join(extra), n, key, diff_detail(ref[2], o[2]) if key == "stderr" else (ref[0], o[0])), {"case_dir": base, "run": n, "overrides": overrides})
+                return
+        shutil.rmtree(base, ignore_errors=True)
+
+    pmap(one, sets, workers=4)
 
 
 def history_independence(ctx, home, quick):
